@@ -450,6 +450,16 @@ func runC08(w *World, p map[string]int) {
 			vaddrs = append(vaddrs, ia.Addr)
 		}
 	}
+	// often the victim has several pending transactions when it goes
+	if t.Bool(40) {
+		for k := 0; k < 2+t.Int(4); k++ {
+			w.AnnounceLoose(t)
+		}
+		if !quiesceAll(w, "C08", 30000) {
+			return
+		}
+		w.Stat("probe.pending_burst_before_removal")
+	}
 	holdStill := t.Bool(50)
 	if err := inst.RemoveWallet(victim.ID, victim.Pass, t.Bool(50)); err != nil {
 		w.Violate("C08.remove-refused", "RemoveWallet with the right passphrase: %v", err)
@@ -575,15 +585,12 @@ func runC08(w *World, p map[string]int) {
 		// what the node announces (again) from now on reaches the re-imported
 		// wallet like any other: nothing of the removed wallet's pending set may
 		// linger in memory and make the wallet ignore it
-		for k := 0; k < 4 && len(w.Violations) == 0; k++ {
-			tx, free := w.AnnounceAgain(t)
-			if tx == nil {
-				break
-			}
-			if !quiesceAll(w, "C08", 30000) || !w.AllDelivered() {
-				return
-			}
-			if !free || !relevantToWallets(w, inst, tx) {
+		again := w.AnnounceAgainAll(t, 8)
+		if len(again) > 0 && (!quiesceAll(w, "C08", 30000) || !w.AllDelivered()) {
+			return
+		}
+		for _, tx := range again {
+			if !relevantToWallets(w, inst, tx) {
 				continue
 			}
 			pend, ok := w.PendingSet(inst)
